@@ -10,9 +10,8 @@ demo() { gcc -O1 -o /tmp/mut/$P-demo $O/demo.c -I$W/pixman -I$W/_b/pixman -I$W/_
 clean_rc=$(demo)
 git apply $O/patch.diff || { echo "patch does not apply"; exit 1; }
 ninja -C _b >/dev/null 2>&1 || { echo "mutated build failed"; git checkout -q -- .; exit 1; }
-tout=$(OMP_NUM_THREADS=2 meson test -C _b --num-processes 6 2>&1)
-tests=$(echo "$tout" | grep -E "^Ok:" | awk '{print $2}')
-fails=$(echo "$tout" | grep -E "^Fail:" | awk '{print $2}')
+tests=$(meson test -C _b 2>&1 | grep -E "^Ok:" | awk '{print $2}')
+fails=$(meson test -C _b --no-rebuild 2>&1 | grep -E "^Fail:" | awk '{print $2}')
 mut_rc=$(demo)
 git checkout -q -- . ; rm -rf _b /tmp/mut/$P-demo /tmp/mut/$P-demo.out
 cp $O/patch.diff $O/demo.c $D/ ; cp $O/README.txt $D/README.txt 2>/dev/null
